@@ -32,6 +32,7 @@ def run(tier, seed, res, lean):
         problems += suite_neutral.run_two_storages(seed * 17 + i)
     for i in range(12 if tier == 'quick' else 100):
         problems += suite_neutral.run_ids_order(seed * 29 + i)
+        problems += suite_neutral.run_dynamic_bracketings(seed * 37 + i)
     # pickling the compiled function (in this process and into a fresh interpreter) changes no persistent digest: the pipelines of
     # S-PICKLE (keyword bindings, dataset-wide layers that keep a static graph hash, caches)
     from .. import suite_pickle
